@@ -10,7 +10,7 @@ int main(int argc,char**argv){
   FILE*f=fopen(argv[1],"r"); char*buf=malloc(1<<20); size_t l=fread(buf,1,(1<<20)-1,f); buf[l]=0;
   OrcProgram **progs; char*log=NULL; int np=orc_parse_full(buf,&progs,&log); if(log) printf("%s",log);
   OrcTarget*t=orc_target_get_by_name(argv[2]); unsigned flags=argc>3&&strcmp(argv[3],"-")?strtoul(argv[3],0,0):orc_target_get_default_flags(t);
-  int n=argc>4?atoi(argv[4]):17, m=argc>5?atoi(argv[5]):1; int show=argc>6;
+  int n=argc>4?atoi(argv[4]):17, m=argc>5?atoi(argv[5]):1; int show=argc>6; if(show) orc_debug_set_level(0);
   for(int k=0;k<np;k++){ OrcProgram*p=progs[k];
     OrcCompileResult r=orc_program_compile_full(p,t,flags); printf("%s: compile 0x%x flags 0x%x\n",p->name,r,flags);
     if(show&&p->asm_code) printf("%s\n",p->asm_code);
